@@ -4,7 +4,7 @@ LEVEL = 'exploration'
 RULE = ('generated well-formed stub configurations (optional default first, then 0-6 When / In clauses whose arguments are plain values, arg.Any, arg.In; clauses overlap on purpose) '
         'on 14 targets (fixed 1-5 params of int/uint8/float/string/bool/struct/pointer/interface, variadics with 0-3 leading fixed params, pointer/value-receiver methods); '
         'every configuration is exercised by real calls aimed at each clause, at overlaps and at nothing; the outcome is compared with a reference interpreter of the documented rule '
-        '(first registered matching clause, else default, else a "no suitable condition" panic); plus a sweep of calls whose pointer argument points into the caller frame (compared by pointee) at every stack depth; distinct = (signature class, clause-kind multiset, outcome kind) triples')
+        '(first registered matching clause, else default, else a "no suitable condition" panic); plus a sweep of calls whose pointer argument points into the caller frame (compared by pointee) at every stack depth; plus 7 clause layouts on 4 targets without results (function, variadic, method, interface method) x 5 calls: no call panics or runs the original; distinct = (signature class, clause-kind multiset, outcome kind) triples')
 
 
 def run(ctx):
@@ -18,3 +18,6 @@ def run(ctx):
     # goroutines are born and grown all the time (released stack memory is reused at once)
     ch = ctx.child(b, run='TestC04StackArgs$', timeout=600, env={'VERIF_C04_STACKROUNDS': '400' if not ctx.thorough else '6000'})
     ctx.absorb(ch, what='TestC04StackArgs')
+    # targets without results: clauses, default and "nothing matches" on functions, variadics, methods, interface methods
+    chv = ctx.child(b, run='TestC04Void$', timeout=300, label='void')
+    ctx.absorb(chv, what='TestC04Void')
